@@ -1,7 +1,8 @@
 // govc:pkg aggregator
-// govc:bound grouping tuples of arity 1..3 over one scalar type per column: strings from a pool with separator-like characters ('|', ',', unit separator, backslash, NUL, the NULL markers), NULL and missing (19^2 / 10^3 tuples), and small integers; all pairs of tuples compared
+// govc:bound grouping tuples of arity 1..3 over one scalar type per column: strings from a pool with separator-like characters ('|', ',', unit separator, backslash, NUL, the NULL markers), NULL and missing (19^2 / 10^3 tuples), and small integers; all pairs of tuples compared, every tuple alone reported back column by column
 // govc:also C01 C03 C07 C09
-// Bounded stand-in (NOT a proof): the group key built by GroupAggregator.Add: two rows get the same key iff their grouping tuples are equal.
+// Bounded stand-in (NOT a proof): the group key built by GroupAggregator.Add: two rows get the same key iff their grouping tuples are equal;
+// and every tuple alone is reported by GetResults column by column (NULL / missing as NULL, later columns not shifted).
 package aggregator
 
 import (
@@ -143,6 +144,38 @@ func TestGovcBounded_aggregator_keys(t *testing.T) {
 								fmt.Printf("GOVC-BOUNDED-FAIL aggregator.Add: tuples %#v and %#v: equal=%v but %d group(s)\n", govcShow(ts[i]), govcShow(ts[j]), same, len(ga.groups))
 							}
 						}
+					}
+				}
+			}
+		}
+	}
+	// every tuple alone: the one result row reports each grouping value under its own column, NULL / missing as NULL
+	// (a NULL in an earlier column must not shift the later values)
+	for arity := 1; arity <= 3; arity++ {
+		cols := govcCols[:arity]
+		for _, pools := range [][][]govcVal{govcStrPools, govcNumPools} {
+			for _, tp := range govcTuples(pools[arity-1], arity) {
+				total++
+				ga := NewGroupAggregator(cols, []AggregationField{{InputField: "__id", AggregateType: Count, OutputAlias: "c"}})
+				if err := ga.Add(govcRow(cols, tp)); err != nil {
+					t.Fatal(err)
+				}
+				res, err := ga.GetResults()
+				ok := err == nil && len(res) == 1
+				for c := 0; ok && c < arity; c++ {
+					got, present := res[0][cols[c]]
+					var want any
+					if !tp[c].missing {
+						want = tp[c].v
+					}
+					if !present || got != want {
+						ok = false
+					}
+				}
+				if !ok {
+					bad++
+					if bad <= 6 {
+						fmt.Printf("GOVC-BOUNDED-FAIL aggregator.GetResults: tuple %#v reported as %v (%v)\n", govcShow(tp), res, err)
 					}
 				}
 			}
